@@ -165,8 +165,8 @@ PROPERTIES = {
         outside="death of the receiver; observation through a receiver set / router; shapes of > 3 packets (same loop)",
         assumptions=[_A_KQ, _A_INJ, "a crash point between two system calls is observable only through the packets already sent: the sender's packet sequence prefix + closing all its descriptors"]),
     "C13": dict(
-        bounds="every ENOBUFS pattern over the first 8 attempts (symbolic mask), all lengths <= 2^26 and buffer sizes in [4096, 2^24], <= 10 attempts, with and without 3 attachments; M-queries: downsize and the retry steps for all 64-bit values",
-        outside="patterns over attempts 9, 10 and beyond (M-query induction only); byte-exact delivery under ENOBUFS (the receive side accepts every valid plan: rt_bytes_* + window M-queries)",
+        bounds="quick: every ENOBUFS pattern over the first 4 attempts (symbolic mask), lengths <= 2^22, buffer sizes in [4096, 2^20], <= 6 attempts, with and without 3 attachments, + concrete refused-first-fragment shapes and short follow-ups on the receive side; thorough: 8 mask bits, lengths <= 2^26, buffer sizes <= 2^24, <= 10 attempts; M-queries: downsize and the retry steps for all 64-bit values",
+        outside="patterns beyond the masked attempts (M-query induction only); byte-exact delivery under ENOBUFS (the receive side accepts every valid plan: rt_bytes_* + window M-queries)",
         assumptions=[_A_REC]),
     "C14": dict(
         bounds="serialisation failing after 0,1,2,3 of (sender, region, sender) were visited, followed by an unrelated send; a complete / a failing send nested inside a Serialize impl between two sender attachments and between two region attachments (depth 2)",
